@@ -36,7 +36,9 @@ THEOREMS = ['Scalibr.Vulns.C18_decl', 'Scalibr.Vulns.C18_range', 'Scalibr.Vulns.
             'Scalibr.Vulns.C18_sort_pre', 'Scalibr.Vulns.C18_wf_tie_shapes', 'Scalibr.Vulns.C18_old_closing_listed_first',
             'Scalibr.Vulns.C18_old_adjacent_intervals', 'Scalibr.Vulns.C18_illformed_differs', 'Scalibr.Vulns.specAffectedB_iff',
             'Scalibr.Vulns.C18_match_entry', 'Scalibr.Vulns.C18_match_select', 'Scalibr.Vulns.C18_match_select_first', 'Scalibr.Vulns.C18_match_select_none',
-            'Scalibr.Vulns.C18_match_other', 'Scalibr.Vulns.C18_matchvuln', 'Scalibr.Vulns.C18_match_toplevel']
+            'Scalibr.Vulns.C18_match_other', 'Scalibr.Vulns.C18_matchvuln', 'Scalibr.Vulns.C18_match_toplevel',
+            'Scalibr.Vulns.C18_before_introduced', 'Scalibr.Vulns.C18_at_or_after_fixed', 'Scalibr.Vulns.C18_after_last_affected',
+            'Scalibr.Vulns.C18_introduced_version_affected', 'Scalibr.Vulns.C18_inside_interval']
 
 ECO = {'0': 'npm', '1': 'Maven', '2': 'PyPI', '3': ''}
 PURL_TYPE = {'0': 'npm', '1': 'maven', '2': 'pypi'}
@@ -90,11 +92,12 @@ def run(ctx):
     ctx.rule += ('; every 4th random case is followed by a match case (1-3 subgraphs of one package, 1-3 affected entries that mostly split its versions into branches '
                  'with 0-2 severities each from an 11-entry table incl. unparsable/empty ones, some entries for other packages/ecosystems, tied and ill-formed ranges, '
                  'threshold on / 0.04-0.1 around a score in play, ignore ids, dev-only, depth); 44 vkpkg cases (11 names x 4 systems)')
-    ok, _ = ctx.lean_build(['Scalibr.Properties.C18', 'Scalibr.Properties.C18Match', 'drv_c18'])
-    proofs_ok = ctx.audit(['Scalibr.Properties.C18', 'Scalibr.Properties.C18Match'], THEOREMS)
+    ok, _ = ctx.lean_build(['Scalibr.Properties.C18', 'Scalibr.Properties.C18Match', 'Scalibr.Properties.C18Consequences', 'drv_c18'])
+    proofs_ok = ctx.audit(['Scalibr.Properties.C18', 'Scalibr.Properties.C18Match', 'Scalibr.Properties.C18Consequences'], THEOREMS)
     if ctx.tier == 'thorough':
         proofs_ok = ctx.leanchecker('Scalibr.Properties.C18') and proofs_ok
         proofs_ok = ctx.leanchecker('Scalibr.Properties.C18Match') and proofs_ok
+        proofs_ok = ctx.leanchecker('Scalibr.Properties.C18Consequences') and proofs_ok
     n = {'quick': 20000, 'thorough': 200000}[ctx.tier]
     if ctx.fingerprints(['guidedremediation/internal/vulns/vulns.go:IsAffected,VKToPackage']):
         n *= 4
